@@ -51,7 +51,7 @@ func (Prop) Describe(t vp.Tier) vp.Description {
 			"the value obtained by load is observed through golua's own compiler; the independent literal reader guards against an output that only golua's lexer accepts",
 			"held on the argument tuples enumerated/sampled, not on all formats x values",
 		},
-		Floor: map[vp.Tier]int64{vp.Quick: 150000, vp.Thorough: 2000000}[t],
+		Floor: map[vp.Tier]int64{vp.Quick: 150000, vp.Thorough: 4000000}[t],
 	}
 }
 
